@@ -211,6 +211,10 @@ class E2EStream(Stream):
         import time
         from common import run_parallel, HARNESS, DRIVER, Broken
         t0 = time.time()
+        # the url oracle: url.Parse(x).String() for the literal macro arguments of each document, computed by net/url
+        rc0, add, e0 = run_parallel(HARNESS, "urlcands", self.cases, jobs=8)
+        if len(add) == len(self.cases):
+            self.cases = [c + a for c, a in zip(self.cases, add)]
         small = len(self.cases) < 2000
         import concurrent.futures as cf
         if small and len(self.cases) > 12:
